@@ -1,0 +1,88 @@
+//go:build verif
+
+// Contracts checked by /verif (govc). Comments only; not part of any normal build.
+// The `layout` directive synthesises requires/ensures from /verif/specs/layouts (DESIGN.md section 3.4).
+
+package smgp30
+
+//@ func (p *Login) IEncode
+//@   theory T1
+//@   layout enc
+
+//@ func (p *Login) IDecode
+//@   theory T1
+//@   layout dec
+
+//@ func (c *LoginResp) IEncode
+//@   theory T1
+//@   layout enc
+
+//@ func (c *LoginResp) IDecode
+//@   theory T1
+//@   layout dec
+
+//@ func (s *Submit) IEncode
+//@   theory T1
+//@   layout enc
+
+//@ func (s *Submit) IDecode
+//@   theory T1
+//@   layout dec
+
+//@ func (s *SubmitResp) IEncode
+//@   theory T1
+//@   layout enc
+
+//@ func (s *SubmitResp) IDecode
+//@   theory T1
+//@   layout dec
+
+//@ func (d *Deliver) IEncode
+//@   theory T1
+//@   layout enc
+
+//@ func (d *Deliver) IDecode
+//@   theory T1
+//@   layout dec
+
+//@ func (d *DeliverResp) IEncode
+//@   theory T1
+//@   layout enc
+
+//@ func (d *DeliverResp) IDecode
+//@   theory T1
+//@   layout dec
+
+//@ func (p *ActiveTest) IEncode
+//@   theory T1
+//@   layout enc
+
+//@ func (p *ActiveTest) IDecode
+//@   theory T1
+//@   layout dec
+
+//@ func (pr *ActiveTestResp) IEncode
+//@   theory T1
+//@   layout enc
+
+//@ func (pr *ActiveTestResp) IDecode
+//@   theory T1
+//@   layout dec
+
+//@ func (t *Exit) IEncode
+//@   theory T1
+//@   layout enc
+
+//@ func (t *Exit) IDecode
+//@   theory T1
+//@   layout dec
+
+//@ func (t *ExitResp) IEncode
+//@   theory T1
+//@   layout enc
+
+//@ func (t *ExitResp) IDecode
+//@   theory T1
+//@   layout dec
+
+// ---- hand-written below ----
